@@ -61,11 +61,17 @@ def gen_mq(rng: random.Random, tier: str) -> dict:
     t = 1
     pid = 0
     initial = [c for c in range(n_cons) if rng.random() < 0.7]
+    reuse = rng.random() < 0.3
     for _ in range(n_ops):
         t += rng.choice([0, 1, 1, 2, 5, 20, 100, rd_ms])
         kind = rng.choices(["pub", "poll", "sub", "unsub"], weights=[4, 5, 1, 1])[0]
         if kind == "pub":
-            ops.append({"t": t, "op": "pub", "pid": pid})
+            op = {"t": t, "op": "pub", "pid": pid}
+            if reuse and pid > 0 and rng.random() < 0.4:
+                # a retrying producer publishes the very same Event object again / builds the
+                # next payload around the same context dict (pid stays the id of the publish CALL)
+                op[rng.choice(["same_as", "shared_ctx"])] = rng.randrange(pid)
+            ops.append(op)
             pid += 1
         elif kind == "poll":
             ops.append({"t": t, "op": "poll"})
@@ -148,6 +154,10 @@ class _H:
         self.redelivery_due = {}  # ns -> list[mid]
         self.n_timeouts_granted = 0
         self.rx_index = 0
+        self.payloads = {}  # pid -> payload Event object handed to publish()
+        self.reused_labels = set()  # payload labels (context["pid"]) carried by more than one publish call
+        self.n_acks_effective = 0
+        self.dup_ids = []  # (pid, earlier pid, message id)
         self.requeued_while_pending = set()  # mids rejected with requeue while already waiting for redelivery
         self.last_flag = None  # most recent terminal action on a message that was waiting for its redelivery
 
@@ -166,11 +176,16 @@ class _Consumer(Entity):
         now = self.now.nanoseconds
         mid = event.context.get("message_id")
         payload = event.context.get("payload")
-        pid = payload.context.get("pid") if payload is not None else None
+        label = payload.context.get("pid") if payload is not None else None
         attempt = event.context.get("delivery_count")
         live = q.get_message(mid)
-        if pid is not None:
+        if mid in h.pid_of:
+            pid = h.pid_of[mid]
+        elif label is not None and label not in h.reused_labels:
+            pid = label
             _learn(ctx, pid, mid)
+        else:
+            pid = None  # filled in after the run, once publish() has returned the id
         rec = {
             "t": now,
             "c": self.name,
@@ -263,6 +278,7 @@ def _ack(ctx, mid, who):
             h.flags.add("ack-while-pending-redelivery")
             h.last_flag = "ack-while-pending-redelivery"
         h.acks.setdefault(mid, now)
+        h.n_acks_effective += 1
         h.last_action[mid] = "ack"
     q.acknowledge(mid)
 
@@ -313,6 +329,7 @@ class _Driver(Entity):
         kind = op["op"]
         _note_op(h, now, kind)
         if kind == "pub":
+            ctx["cur_op"] = op
             return self._publish(op["pid"])
         if kind == "poll":
             return [Event(time=self.now, event_type="poll", target=q)]
@@ -342,7 +359,17 @@ class _Driver(Entity):
         h, q = ctx["h"], ctx["q"]
         h.pub_seq[pid] = len(h.pub_seq)
         h.pub_time[pid] = self.now.nanoseconds
-        msg = Event(time=self.now, event_type="payload", target=self, context={"pid": pid})
+        op = self.ctx["cur_op"]
+        src = h.payloads.get(op.get("same_as", op.get("shared_ctx")))
+        if src is not None and "same_as" in op:
+            msg = src
+            h.reused_labels.add(src.context.get("pid"))
+        elif src is not None:
+            msg = Event(time=self.now, event_type="payload", target=self, context=src.context)
+            h.reused_labels.add(src.context.get("pid"))
+        else:
+            msg = Event(time=self.now, event_type="payload", target=self, context={"pid": pid})
+        h.payloads[pid] = msg
         full = q.is_full
         try:
             mid = yield from q.publish(msg)
@@ -356,6 +383,9 @@ class _Driver(Entity):
             return None
         if full:
             ctx["res"].add("capacity-admission", "MessageQueue", "admitted-while-full", f"pid {pid}")
+        if mid in h.pid_of and h.pid_of[mid] != pid:
+            h.dup_ids.append((pid, h.pid_of[mid], mid))
+        h.mid_of[pid] = mid
         _learn(ctx, pid, mid)
         if ctx["poll_on_publish"]:
             _note_op(h, self.now.nanoseconds, "poll")
@@ -524,7 +554,9 @@ def run_mq(case: dict) -> Result:
                 rel.append("pending_count" + (">" if pc > n_pending else "<") + "pending-messages")
             if fc > n_inflight + unknown or fc < n_inflight:
                 rel.append("in_flight_count" + (">" if fc > n_inflight else "<") + "in-flight-messages")
-            if not rel and pc + fc != n_pending + n_inflight + unknown:
+            # (a message whose id is still unknown may already be acknowledged, so with unknown ids only the upper bound is exact;
+            #  the conservation check over publish calls below is exact in every case)
+            if not rel and (pc + fc > n_pending + n_inflight + unknown or (unknown == 0 and pc + fc != n_pending + n_inflight)):
                 rel.append("pending_count+in_flight_count" + (">" if pc + fc > n_pending + n_inflight + unknown else "<") + "live-messages")
             if rel:
                 if "counters" not in mon:
@@ -536,6 +568,18 @@ def run_mq(case: dict) -> Result:
                         "witness": {"t_ns": t, "pending_count": pc, "in_flight_count": fc, "pending": n_pending, "in_flight": n_inflight},
                     }
                 mon["root"] = True
+        # conservation over publish CALLS (harness-side ids, independent of payload identity):
+        # every accepted publish is pending, in flight, acknowledged or dead-lettered
+        accepted = len(h.pub_seq) - len(h.refused)
+        accounted = q.pending_count + q.in_flight_count + h.n_acks_effective + len(dlq.messages)
+        res.count("conservation_checks")
+        if accepted != accounted and "conservation" not in mon:
+            mon["conservation"] = (
+                t,
+                f"t={t}ns {accepted} publish calls accepted but pending_count {q.pending_count} + in_flight_count {q.in_flight_count} "
+                f"+ acknowledged {h.n_acks_effective} + dead-lettered {len(dlq.messages)} = {accounted}",
+                accepted > accounted,
+            )
         dispatch = q.stats.messages_delivered + q.stats.messages_redelivered
         kinds = h.op_instants.get(t, [])
         # a poll with a message pending before and after, consumers present, must dispatch something
@@ -630,7 +674,8 @@ def run_mq(case: dict) -> Result:
     unmatched_receipts = []
     for r in h.receipts:
         res.count("deliveries_received")
-        mid, pid, t = r["mid"], r["pid"], r["t"]
+        mid, t = r["mid"], r["t"]
+        pid = r["pid"] if r["pid"] is not None else h.pid_of.get(mid)
         first = mid not in by_mid
         by_mid.setdefault(mid, []).append(r)
         x = t - L_ns  # dispatch instant
@@ -731,6 +776,18 @@ def run_mq(case: dict) -> Result:
                 "state:" + "+".join(sorted({s for _, s in stranded})) + "/" + cause(),
                 f"after {2 * n_polls} polls, timeouts and an acknowledging consumer, pids {stranded[:6]} are neither acknowledged nor dead-lettered",
             )
+    reuse_shape = "payload-event-or-context-published-twice" if h.reused_labels else "distinct-payloads"
+    if h.dup_ids:
+        pid2, pid1, mid = h.dup_ids[0]
+        report(
+            "accounting",
+            "two-publish-calls-share-one-message-id/" + reuse_shape,
+            f"{len(h.dup_ids)} publish calls were given the message id of an earlier, different publish call (e.g. calls #{pid1} and "
+            f"#{pid2} -> {mid!r}): the later message replaces the earlier one in the queue's table",
+        )
+    if "conservation" in mon and "counters" not in mon:
+        _t, detail, fewer = mon["conservation"]
+        report("accounting", ("publish-calls>accounted-for/" if fewer else "publish-calls<accounted-for/") + reuse_shape, detail)
     if not mon["root"]:
         for oracle, shape, detail in mon["deferred"]:
             report(oracle, shape, detail)
